@@ -59,7 +59,7 @@ def budget(tier):
 
 
 @st.composite
-def st_case(draw, tier):
+def st_case(draw, tier, p_restricted=0):
     S = draw(st.sampled_from([0, 0, 2]))
     T = 1
     up_cfg = Cfg(
@@ -70,12 +70,13 @@ def st_case(draw, tier):
         p_binary=0.15,
         avoid=frozenset(["D9", "D10", "D11"]),
         max_leaves=2,
+        p_restricted=p_restricted,
     )
     universe, leaves, up = draw(st_program(up_cfg))
     if draw(st.integers(0, 4)) == 0:
         up = ("leaf", draw(st.integers(0, len(leaves) - 1)))
     base = ("xfer", up, T)
-    cfg = Cfg(engines=(S, T), max_ops=4)
+    cfg = Cfg(engines=(S, T), max_ops=4, p_restricted=p_restricted)
     counter = 0
     for _ in range(draw(st.integers(0, 4))):
         cols = schema(base, leaves)
